@@ -1247,6 +1247,14 @@ def _m_append(I, b, a, kw, node):
             I.ctx.writes.append(("list", b))
         b.items.append(a[0])
         return None
+    if isinstance(b, SymSeq) and b.mutable and getattr(b, "rec", None) is not None:
+        # record list kept as one z3 array per field (struct of arrays): append = one Store per column
+        vals = b.rec["abstract"](a[0])
+        pos = b.n if not isinstance(b.n, int) else z3.IntVal(b.n)
+        for cname, t in vals.items():
+            b.rec["cols"][cname] = z3.Store(b.rec["cols"][cname], pos, t)
+        b.n = b.n + 1 if isinstance(b.n, int) else z3.simplify(b.n + 1)
+        return None
     if isinstance(b, SymSeq) and b.mutable:
         old_n, old_elem, x = b.n, b.elem, a[0]
         b.elem = lambda i, old_n=old_n, old_elem=old_elem, x=x: ite_value(ival(i) == ival(old_n), x, old_elem(i)) \
